@@ -59,10 +59,10 @@ theorem lognormal_moments_value {m s : ℝ} (hm : 0 < m) (hs : 0 < s) :
   have hm' : ¬ m ≤ 0 := not_le.mpr hm
   have hs' : ¬ s ≤ 0 := not_le.mpr hs
   constructor
-  · simp only [lognormalMomentsRe, hm', hs', if_false, Np.log1p, Priors.sq, TranscReal.sqrt_eq,
+  · simp only [lognormalMomentsRe, lognormalMomentsReWith, hm', hs', if_false, Np.log1p, Priors.sq, TranscReal.sqrt_eq,
       TranscReal.log_eq, e1, e2, hsq]
     congr 2; ring
-  · simp only [lognormalMomentsCl, hm, hs, not_true_eq_false, if_false, Np.log1p, Priors.sq, TranscReal.sqrt_eq,
+  · simp only [lognormalMomentsCl, lognormalMomentsClWith, hm, hs, not_true_eq_false, if_false, Np.log1p, Priors.sq, TranscReal.sqrt_eq,
       TranscReal.log_eq, e1, hsq]
 
 /-- JAX variant: for mean `m > 0`, std `s > 0` the returned `(μ_ℓ, σ_ℓ)` have `σ_ℓ > 0` and reproduce the moments of
@@ -84,10 +84,59 @@ theorem lognormal_moments_spec_cl {m s : ℝ} (hm : 0 < m) (hs : 0 < s) :
   · rw [pow_two, hsq]; exact h1
   · rw [pow_two, hsq]; exact h2
 
+/-- the Kahan-stable evaluation of `log1p` is, over `ℝ`, the textbook `log(1+v)` (all `v`) -/
+theorem log1pStable_eq (v : ℝ) : log1pStable v = log (1 + v) := by
+  have e1 : (1.0 : ℝ) = 1 := by norm_num
+  simp only [log1pStable, TranscReal.log_eq, e1]
+  by_cases h : (1 + v < 1 ∨ 1 < 1 + v)
+  · rw [if_pos h]
+    have hv : v ≠ 0 := by
+      rcases h with h | h
+      · exact ne_of_lt (by linarith)
+      · exact ne_of_gt (by linarith)
+    have : (1 + v - 1 : ℝ) = v := by ring
+    rw [this, mul_div_assoc, div_self hv, mul_one]
+  · rw [if_neg h]
+    have hv : v = 0 := by
+      have h1 : ¬ (1 + v < 1) := fun hh => h (Or.inl hh)
+      have h2 : ¬ (1 < 1 + v) := fun hh => h (Or.inr hh)
+      linarith [not_lt.mp h1, not_lt.mp h2]
+    rw [hv, add_zero, log_one]
+
+/-- **the stable formula is the specification**: evaluating `lognormal_moments` with the numerically stable `log1p`
+    (what `np.log1p`/`jnp.log1p` and the harness' float64 reference `sqrt(log1p((s/m)²))`, `log m − log1p((s/m)²)/2` do) is,
+    over `ℝ`, the same function as the textbook evaluation — for *all* arguments, JAX and classic variant. Hence
+    `lognormal_moments_value/_spec` hold verbatim for the stable evaluation. -/
+theorem lognormal_moments_stable (m s : ℝ) :
+    lognormalMomentsReWith log1pStable m s = lognormalMomentsRe m s ∧
+    lognormalMomentsClWith log1pStable m s = lognormalMomentsCl m s := by
+  have e1 : (1.0 : ℝ) = 1 := by norm_num
+  have h : (log1pStable : ℝ → ℝ) = Np.log1p := by
+    funext v
+    rw [log1pStable_eq]
+    simp only [Np.log1p, TranscReal.log_eq, e1]
+  simp only [lognormalMomentsRe, lognormalMomentsCl, h, and_self]
+
+/-- the reference the harness uses at the extremes, for `m, s > 0`:
+    `(log m − log1p((s/m)²)/2, √(log1p((s/m)²)))` with the stable `log1p` — and its moments are `m`, `s²` -/
+theorem lognormal_moments_stable_value {m s : ℝ} (hm : 0 < m) (hs : 0 < s) :
+    lognormalMomentsReWith log1pStable m s
+      = some (log m - log1pStable (s / m * (s / m)) / 2, sqrt (log1pStable (s / m * (s / m)))) ∧
+    exp ((log m - log1pStable (s / m * (s / m)) / 2) + (sqrt (log1pStable (s / m * (s / m)))) ^ 2 / 2) = m ∧
+    (exp ((sqrt (log1pStable (s / m * (s / m)))) ^ 2) - 1)
+      * exp (2 * (log m - log1pStable (s / m * (s / m)) / 2) + (sqrt (log1pStable (s / m * (s / m)))) ^ 2) = s ^ 2 := by
+  obtain ⟨-, hsq, h1, h2⟩ := lognormal_algebra hm hs
+  rw [(lognormal_moments_stable m s).1, (lognormal_moments_value hm hs).1, log1pStable_eq]
+  refine ⟨rfl, ?_, ?_⟩
+  · rw [pow_two, hsq]; exact h1
+  · rw [pow_two, hsq]; exact h2
+
+example : log1pStable (1e-18 : ℝ) = log (1 + 1e-18) := log1pStable_eq _
+
 /-- both variants reject non-positive mean or std (the `ValueError`) -/
 theorem lognormal_moments_rejects {m s : ℝ} (hbad : m ≤ 0 ∨ s ≤ 0) :
     lognormalMomentsRe m s = none ∧ lognormalMomentsCl m s = none := by
-  simp only [lognormalMomentsRe, lognormalMomentsCl]
+  simp only [lognormalMomentsRe, lognormalMomentsCl, lognormalMomentsReWith, lognormalMomentsClWith]
   rcases hbad with hb | hb
   · simp [hb, not_lt.mpr hb]
   · by_cases hm : 0 < m <;> simp [hm, hb, not_lt.mpr hb, not_le.mpr]
